@@ -87,7 +87,7 @@ def script_text(o):
 
 def slim(o, keep_events=False):
     """the part of an observation worth keeping in replay files / samples"""
-    d = {k: o[k] for k in ("id", "rep", "raw", "dec", "filter", "traps", "logs", "effects", "status", "exit",
+    d = {k: o[k] for k in ("id", "rep", "raw", "script", "dec", "filter", "traps", "logs", "effects", "status", "exit",
                            "error", "stuck", "stuckat", "left", "timeout") if k in o}
     if o.get("class"):
         d["class"] = o["class"]
